@@ -553,12 +553,16 @@ def record_engine(t, cap):
 
         def __call__(self, action, store):
             sig = message_signature(action)
+            k = None
             if rec["cur"] is not None:
+                k = sum(1 for i, _s in rec["cur"]["trace"] if i == self._idx)     # occurrence of this primitive within the top-level dispatch
                 rec["cur"]["trace"].append((self._idx, sig))
             evs = self._inner(action, store)
             if rec["cur"] is not None:
                 rec["cur"]["produced"] += [id(e) for e in evs]
                 rec["cur"]["keep"] += evs
+                if any(e.get("tag") == "global.reject" for e in evs):
+                    rec["cur"]["rejs"].append([self._idx, k])
             return evs
 
         def includes(self, signature):
@@ -577,7 +581,7 @@ def record_engine(t, cap):
             if top:
                 if len(rec["calls"]) >= cap:
                     raise StopRecording()
-                rec["cur"] = {"sig": sig, "hit": sig in self._route_cache, "trace": [], "produced": [], "keep": []}
+                rec["cur"] = {"sig": sig, "hit": sig in self._route_cache, "trace": [], "produced": [], "keep": [], "rejs": []}
             else:
                 rec["nested"] += 1
             rec["depth"] += 1
@@ -585,7 +589,7 @@ def record_engine(t, cap):
                 evs = RouterDispatcher.__call__(self, action, store)
             except BaseException:
                 if top:     # the failing dispatch is part of the history: the model has to fail on it too
-                    rec["calls"].append({"sig": rec["cur"]["sig"], "hit": rec["cur"]["hit"], "trace": None})
+                    rec["calls"].append({"sig": rec["cur"]["sig"], "hit": rec["cur"]["hit"], "trace": None, "rejs": rec["cur"]["rejs"]})
                     rec["cur"] = None
                 raise
             finally:
@@ -595,7 +599,7 @@ def record_engine(t, cap):
                 # the events returned are the events of the primitive calls, concatenated in call order
                 if [id(e) for e in evs] != cur["produced"]:
                     rec["concat_ok"] = False
-                rec["calls"].append({"sig": cur["sig"], "hit": cur["hit"], "trace": cur["trace"]})
+                rec["calls"].append({"sig": cur["sig"], "hit": cur["hit"], "trace": cur["trace"], "rejs": cur["rejs"]})
                 rec["cur"] = None
             return evs
 
@@ -653,13 +657,14 @@ def record_engine(t, cap):
     extra_keys = [k for k in router._route_cache.keys() if k not in sid]
     return {
         "id": "engine:" + t["id"], "kind": "engine+addons" if t.get("addons") else "engine", "job": t["job"],
-        "ops": [["I", d] for d in disp] + [["D", sid[c["sig"]]] for c in rec["calls"]],
+        "ops": [["I", d] for d in disp] + [["D", sid[c["sig"]], c["rejs"]] for c in rec["calls"]],
         "late": False, "universe": [sid[s] for s in universe],
         "expected": [{"hit": c["hit"], "trace": None if c["trace"] is None else [[i, sid[s]] for i, s in c["trace"]], "events": None}
                      for c in rec["calls"]],
         "cache": cache,
         "facts": {"dispatchers": len(disp), "signatures": len(universe), "top_level_dispatches": len(rec["calls"]),
                   "nested_dispatches": rec["nested"], "hits": sum(1 for c in rec["calls"] if c["hit"]),
+                  "rejected_primitive_calls": sum(len(c["rejs"]) for c in rec["calls"]),
                   "primitive_calls": sum(len(c["trace"] or []) for c in rec["calls"]),
                   "events_concatenated_in_call_order": rec["concat_ok"], "cache_keys_outside_universe": extra_keys,
                   "error": rec.get("error")},
@@ -682,17 +687,23 @@ def run_synthetic(sc):
         raise ValueError("synthetic signatures are not distinct")
     back = {v: k for k, v in sig_str.items()}
     log = []
+    rejs = []
     router = RouterDispatcher()
 
     class PrimD(Dispatcher):
-        def __init__(self, idx, incl, fails):
+        def __init__(self, idx, incl, fails, rej=()):
             self.idx, self.incl, self.fails = idx, {sig_str[s] for s in incl}, {sig_str[s] for s in fails}
+            self.rej = {sig_str[s] for s in rej}
 
         def __call__(self, action, store):
             s = message_signature(action)
             if s in self.fails:
                 raise ValueError("primitive %d raises on %s" % (self.idx, s))
+            k = sum(1 for i, _s in log if i == self.idx)
             log.append([self.idx, back[s]])
+            if s in self.rej:            # answers with a rejection (TandemDispatcher then skips the followers)
+                rejs.append([self.idx, k])
+                return [{"name": str(self.idx), "payload": {}, "method": s, "tag": "global.reject", "handler": None}]
             return [{"name": str(self.idx), "payload": {}, "method": s, "tag": None, "handler": None}]
 
         def includes(self, signature):
@@ -703,7 +714,7 @@ def run_synthetic(sc):
 
     def mk(d):
         if d["t"] == "P":
-            return PrimD(d["id"], d["incl"], d["fails"])
+            return PrimD(d["id"], d["incl"], d["fails"], d.get("rej", ()))
         if d["t"] == "C":
             name, method = sigs[d["when"] - 1]
             return ContextDispatcher(name, method, action(d["act"]), router)
@@ -713,19 +724,23 @@ def run_synthetic(sc):
 
     store = ConcreteStore()
     expected = []
+    ops_out = []
     for op in sc["ops"]:
         if op[0] == "I":
             router.install(mk(op[1]))
+            ops_out.append(op)
         else:
             s = sig_str[op[1]]
             hit = s in router._route_cache
             del log[:]
+            del rejs[:]
             try:
                 evs = router(action(op[1]), store)
                 expected.append({"hit": hit, "trace": [list(x) for x in log],
-                                 "events": [[int(e["name"]), back[e["method"]]] for e in evs]})
+                                 "events": [[int(e["name"]), 0 if e["tag"] == "global.reject" else back[e["method"]]] for e in evs]})
             except (Exception, RecursionError) as e:      # noqa
                 expected.append({"hit": hit, "trace": None, "events": None, "raised": type(e).__name__})
+            ops_out.append(["D", op[1], [list(x) for x in rejs]])      # the recorded rejections drive the model
     index_of = {id(d): i for i, d in enumerate(router._dispatchers)}
     cache = []
     for s in range(1, len(sigs) + 1):
@@ -734,6 +749,7 @@ def run_synthetic(sc):
         else:
             cache.append(None)
     out = dict(sc)
+    out["ops"] = ops_out
     out.update({"expected": expected, "cache": cache, "universe": list(range(1, len(sigs) + 1)),
                 "extra_keys": [k for k in router._route_cache.keys() if k not in back]})
     return out
@@ -787,7 +803,9 @@ def coq_pairs(ps) -> str:
 
 
 def coq_case(c, fuel) -> str:
-    ops = "; ".join(("I (%s)" % coq_disp(o[1])) if o[0] == "I" else ("D %d%%N" % o[1]) for o in c["ops"])
+    ops = "; ".join(("I (%s)" % coq_disp(o[1])) if o[0] == "I" else
+                    ("D %d%%N [%s]" % (o[1], "; ".join("(%d%%N, %d%%nat)" % (i, k) for i, k in (o[2] if len(o) > 2 else []))))
+                    for o in c["ops"])
     exp = []
     for e in c["expected"]:
         if e["trace"] is None:
@@ -833,7 +851,8 @@ def gen_synthetic(rng, sid, allow_cycles=True):
         nextid[0] += 1
         incl = [s for s in ids if rng.random() < 0.45]
         fails = [s for s in ids if rng.random() < 0.04]
-        return {"t": "P", "id": i, "incl": incl, "fails": fails}
+        rej = [s for s in incl if s not in fails and rng.random() < 0.25]
+        return {"t": "P", "id": i, "incl": incl, "fails": fails, "rej": rej}
 
     def ctx(avoid_cycle_from=None):
         w = rng.choice(ids)
